@@ -164,6 +164,8 @@ impl<Key, Value> CacheD<Key, Value>
         if self.store.is_present(&key) {
             return Ok(CommandAcknowledgement::rejected(RejectionReason::KeyAlreadyExists))
         }
+        #[cfg(feature = "verif")]
+        crate::cache::verif::point(crate::cache::verif::Site::PutAfterPresenceCheck);
         self.command_executor.send(CommandType::Put(
             self.key_description(key, weight),
             value,
@@ -201,6 +203,8 @@ impl<Key, Value> CacheD<Key, Value>
         if self.store.is_present(&key) {
             return Ok(CommandAcknowledgement::rejected(RejectionReason::KeyAlreadyExists))
         }
+        #[cfg(feature = "verif")]
+        crate::cache::verif::point(crate::cache::verif::Site::PutAfterPresenceCheck);
         self.command_executor.send(CommandType::PutWithTTL(
             self.key_description(key, weight), value, time_to_live)
         )
@@ -270,6 +274,8 @@ impl<Key, Value> CacheD<Key, Value>
 
         let update_response
             = self.store.update(&key, value, time_to_live, request.remove_time_to_live);
+        #[cfg(feature = "verif")]
+        crate::cache::verif::point(crate::cache::verif::Site::UpsertAfterStoreUpdate);
 
         if !update_response.did_update_happen() {
             let value = update_response.value();
@@ -313,6 +319,8 @@ impl<Key, Value> CacheD<Key, Value>
 
         if let Some(weight) = updated_weight {
             assert!(weight > 0, "{}", Errors::KeyWeightGtZero("PutOrUpdate"));
+            #[cfg(feature = "verif")]
+            crate::cache::verif::point(crate::cache::verif::Site::UpsertBeforeSend);
             return self.command_executor.send(CommandType::UpdateWeight(key_id, weight));
         }
         Ok(CommandAcknowledgement::accepted())
@@ -344,6 +352,8 @@ impl<Key, Value> CacheD<Key, Value>
         if self.is_shutting_down() { return shutdown_result(); }
 
         self.store.mark_deleted(&key);
+        #[cfg(feature = "verif")]
+        crate::cache::verif::point(crate::cache::verif::Site::DeleteAfterMark);
         self.command_executor.send(CommandType::Delete(key))
     }
 
@@ -457,9 +467,17 @@ impl<Key, Value> CacheD<Key, Value>
     pub fn shutdown(&self) {
         if self.is_shutting_down.compare_exchange(false, true, Ordering::Release, Ordering::Relaxed).is_ok() {
             info!("Starting to shutdown cached");
+            #[cfg(feature = "verif")]
+            crate::cache::verif::point(crate::cache::verif::Site::ShutdownAfterFlag);
             let _ = self.command_executor.shutdown();
+            #[cfg(feature = "verif")]
+            crate::cache::verif::point(crate::cache::verif::Site::ShutdownAfterSend);
             self.admission_policy.shutdown();
+            #[cfg(feature = "verif")]
+            crate::cache::verif::point(crate::cache::verif::Site::ShutdownAfterPolicy);
             self.ttl_ticker.shutdown();
+            #[cfg(feature = "verif")]
+            crate::cache::verif::point(crate::cache::verif::Site::ShutdownBeforeClear);
 
             self.store.clear();
             self.admission_policy.clear();
@@ -645,6 +663,43 @@ impl<Key, Value> CacheD<Key, Value>
 ///     assert_eq!(None, iterator.next());
 /// }
 /// ```
+#[cfg(feature = "verif")]
+impl<Key, Value> CacheD<Key, Value>
+    where Key: Hash + Eq + Send + Sync + Clone + 'static,
+          Value: Send + Sync + 'static {
+    /// A view of the internal structures (meaningful at quiescent points).
+    pub fn verif_snapshot(&self) -> crate::cache::verif::Snapshot<Key> {
+        crate::cache::verif::Snapshot {
+            weight_used: self.admission_policy.weight_used(),
+            max_weight: self.config.total_cache_weight,
+            charged: self.admission_policy.verif_charged(),
+            stored: self.store.verif_entries(),
+            ttl_index: self.ttl_ticker.verif_entries(),
+            buffered_hits: self.pool.verif_buffered().iter().map(|buffer| buffer.len()).sum(),
+            command_queue_len: self.command_executor.verif_queue_len(),
+            access_queue_len: self.admission_policy.verif_access_queue_len(),
+        }
+    }
+
+    pub fn verif_key_hash(&self, key: &Key) -> crate::cache::types::KeyHash { (self.config.key_hash_fn)(key) }
+
+    pub fn verif_estimate(&self, key: &Key) -> crate::cache::types::FrequencyEstimate {
+        self.admission_policy.estimate((self.config.key_hash_fn)(key))
+    }
+
+    pub fn verif_estimate_hash(&self, key_hash: crate::cache::types::KeyHash) -> crate::cache::types::FrequencyEstimate {
+        self.admission_policy.estimate(key_hash)
+    }
+
+    pub fn verif_charged_weight(&self, key_id: u64) -> Option<Weight> { self.admission_policy.weight_of(&key_id) }
+
+    pub fn verif_buffered_hits(&self) -> usize { self.pool.verif_buffered().iter().map(|buffer| buffer.len()).sum() }
+
+    pub fn verif_command_queue_len(&self) -> usize { self.command_executor.verif_queue_len() }
+
+    pub fn verif_access_queue_len(&self) -> usize { self.admission_policy.verif_access_queue_len() }
+}
+
 pub struct MultiGetIterator<'a, Key, Value>
     where Key: Hash + Eq + Send + Sync + Clone + 'static,
           Value: Send + Sync + Clone + 'static {
